@@ -1,43 +1,33 @@
 import CbiVerif.Props.C06Fortran
 import CbiVerif.Props.C17Nodes
-import CbiVerif.Model.C06FortranGuard
 /-!
 # C06 about SOURCE TEXT — the per-line attribution of mixed code bases, Fortran files included
 
 `Props/C06Fortran.lean` left `FortranGroupsAreReference` open (only the concatenation of the counted lines of a Fortran file was
-proved) and hence `line_attribution_is_reference_mixed_partial`.  `C17.nodes_eq_ref` closes it:
+proved) and hence `line_attribution_is_reference_mixed_partial`.  `C17.nodes_eq_ref` closes it (after the repair of the defect
+F-C17-2 of the code, which had made the statement false):
 
-* `fortran_groups_are_reference` — inside `fguardN` (C17's guard, no F-C17-2 line) the nodes of a Fortran file are the groups
-  of `Spec/FortranNodes.lean`; `not_FortranGroupsAreReference`: WITHOUT the F-C17-2 clause the statement is false (the defect
-  `C17.finding_F_C17_2` of the code), so the clause is necessary;
-* `line_attribution_is_reference_mixed` — the per-line attribution of every file inside `guardN` is the one written from the
-  specifications alone (C-family: as before; Fortran: new);
+* `fortran_groups_are_reference` / `fortranGroupsAreReference` — inside C17's guard the nodes of a Fortran file are the groups
+  of `Spec/FortranNodes.lean`;
+* `line_attribution_is_reference_mixed` / `lineAttributionIsReferenceMixed` — the per-line attribution of every file inside the
+  guard of its language is the one written from the specifications alone (C-family: as before; Fortran: new);
 * `setmap_rows_are_reference_counts_mixed` — hence every row of `get_setmap` of a mixed code base counts the (file, counted
   line) pairs whose reference attribution is exactly that platform set;
-* `fortran_nodes_nonempty` — every node of a Fortran file inside `fguardN` holds at least one line (`1 ≤ num_lines`).
+* `fortran_nodes_nonempty` — every node of a Fortran file inside the guard holds at least one line (`1 ≤ num_lines`).
 -/
 namespace CbiVerif.C06
 open CbiVerif.SM CbiVerif.C06C CbiVerif.C06L
 
-theorem fguardN_iff (t : List Char) : fguardN t = true ↔
-    ∃ r, Fortran.refText (String.ofList t) = some r ∧ (∀ x ∈ r, x.2 = false) ∧
-      Fortran.hashHeadLines (String.ofList t) = [] := by
-  unfold fguardN
-  rw [Bool.and_eq_true, fguard_iff, List.isEmpty_iff]
-  constructor
-  · rintro ⟨⟨r, h1, h2⟩, h3⟩; exact ⟨r, h1, h2, h3⟩
-  · rintro ⟨r, h1, h2, h3⟩; exact ⟨⟨r, h1, h2⟩, h3⟩
-
-/-- **fortran_groups_are_reference.**  `FortranGroupsAreReference` under the full guard: a free-form Fortran text that C17's
-    reference scanner accepts, with no F-C17-1 and no F-C17-2 line, is cut into nodes exactly as `Spec/FortranNodes.lean`
+/-- **fortran_groups_are_reference.**  A free-form Fortran text inside C17's guard (the reference scanner accepts it, no
+    F-C17-1 line) is cut into nodes exactly as `Spec/FortranNodes.lean`
     groups the lines the reference counts — one node per directive line, one per maximal run of counted lines between directive
     lines — and every node holds at least one line with `num_lines = len(lines)`. -/
-theorem fortran_groups_are_reference (t : List Char) (p : Parsed) (hg : fguardN t = true) (h : fParseSrc t = .ok p) :
+theorem fortran_groups_are_reference (t : List Char) (p : Parsed) (hg : fguard t = true) (h : fParseSrc t = .ok p) :
     p.nodes.map (fun nd => (nd.kind == CClean.NKind.directive, nd.lines)) = Fortran.refNodes (String.ofList t) ∧
     ∀ nd ∈ p.nodes, nd.numLines = nd.lines.length ∧ 1 ≤ nd.numLines := by
-  obtain ⟨r, hr, hk, hh⟩ := (fguardN_iff t).mp hg
+  obtain ⟨r, hr, hk⟩ := (fguard_iff t).mp hg
   obtain ⟨lls, hs, hn, _, _, _⟩ := fParseSrc_ok t p h
-  obtain ⟨lls', hs', hgr, hnum⟩ := CbiVerif.C17.nodes_eq_ref _ r hr hk hh
+  obtain ⟨lls', hs', hgr, hnum⟩ := CbiVerif.C17.nodes_eq_ref _ r hr hk
   rw [hs] at hs'
   simp only [Except.ok.injEq] at hs'
   subst hs'
@@ -51,45 +41,18 @@ theorem fortran_groups_are_reference (t : List Char) (p : Parsed) (hg : fguardN 
     obtain ⟨n0, hn0, rfl⟩ := List.mem_map.mp hnd
     exact hnum n0 hn0
 
-/-- **fortran_nodes_nonempty.**  Every node `FileParser` builds for a free-form Fortran text inside the full guard counts at
+/-- **fortranGroupsAreReference.**  The statement left open in `Props/C06Fortran.lean`, as stated there. -/
+theorem fortranGroupsAreReference : FortranGroupsAreReference :=
+  fun t p hg h => (fortran_groups_are_reference t p hg h).1
+
+/-- **fortran_nodes_nonempty.**  Every node `FileParser` builds for a free-form Fortran text inside C17's guard counts at
     least one physical line. -/
-theorem fortran_nodes_nonempty (t : List Char) (p : Parsed) (hg : fguardN t = true) (h : fParseSrc t = .ok p) :
+theorem fortran_nodes_nonempty (t : List Char) (p : Parsed) (hg : fguard t = true) (h : fParseSrc t = .ok p) :
     ∀ nd ∈ p.nodes, 1 ≤ nd.numLines := fun nd hnd => ((fortran_groups_are_reference t p hg h).2 nd hnd).2
 
-/-- **not_FortranGroupsAreReference.**  The statement left open in `Props/C06Fortran.lean` — the same under C17's guard
-    WITHOUT the F-C17-2 clause — is FALSE: on `C17.witnessF2` the code (and its model) reads the continuation line
-    `&#define A` as a preprocessor directive. -/
-theorem not_FortranGroupsAreReference : ¬ FortranGroupsAreReference := by
-  intro h
-  have hg : fguard CbiVerif.C17.witnessF2.toList = true := by decide
-  cases hp : fParseSrc CbiVerif.C17.witnessF2.toList with
-  | error e =>
-    have : (fParseSrc CbiVerif.C17.witnessF2.toList).toOption.isSome = true := by decide
-    rw [hp] at this; cases this
-  | ok p =>
-    have h1 := h _ p hg hp
-    have h2 : (fParseSrc CbiVerif.C17.witnessF2.toList).toOption.map
-        (fun p => p.nodes.map (fun nd => (nd.kind == CClean.NKind.directive, nd.lines)))
-        = some [(false, [1]), (true, [3]), (false, [4])] := by decide
-    have h3 : Fortran.refNodes (String.ofList CbiVerif.C17.witnessF2.toList) = [(false, [1, 3, 4])] := by decide
-    rw [hp] at h2
-    simp only [Except.toOption, Option.map_some, Option.some.injEq] at h2
-    rw [h2, h3] at h1
-    exact absurd h1 (by decide)
-
-/-- the per-line attribution for mixed code bases, FULL statement under the full guard of every file -/
-def LineAttributionIsReferenceMixedN : Prop :=
-  ∀ (files : List SrcFile) (plats : List Plat) (fs : List FileRec), analyseL files plats = .ok fs →
-    (files.map (·.path)).Nodup → RefAcceptsAllL files plats →
-    List.Forall₂ (fun (f : SrcFile) (r : FileRec) => ∃ p, parseSrcL f = .ok p ∧
-      (guardN f = true → lineAttr r = specLineAttrL plats f p.pnodes)) files fs
-
-/-- inside the full guard the nodes of a file hold the lines the specification of its language groups together -/
-theorem nodes_are_spec_groups (f : SrcFile) (p : Parsed) (hparse : parseSrcL f = .ok p) (hg : guardN f = true) :
+/-- inside the guard of its language the nodes of a file hold the lines the specification of its language groups together -/
+theorem nodes_are_spec_groups (f : SrcFile) (p : Parsed) (hparse : parseSrcL f = .ok p) (hgl : guardL f = true) :
     p.nodes.map (·.lines) = (specNodesL f).map (·.2) ∧ ∀ nd ∈ p.nodes, 1 ≤ nd.numLines := by
-  unfold guardN at hg
-  rw [Bool.and_eq_true, List.isEmpty_iff] at hg
-  obtain ⟨hgl, hhash⟩ := hg
   cases hlang : langOf f.path with
   | cFamily =>
     have hgc : C06C.guard f.text = true := by unfold guardL at hgl; rw [hlang] at hgl; exact hgl
@@ -104,12 +67,8 @@ theorem nodes_are_spec_groups (f : SrcFile) (p : Parsed) (hparse : parseSrcL f =
     show _ = (CLexRef.nodes f.text).map (·.2)
     rw [← hnodes, List.map_map]; rfl
   | fortranFree =>
-    have hgf : fguardN f.text = true := by
-      unfold guardL at hgl; rw [hlang] at hgl
-      unfold hashLinesL at hhash; rw [hlang] at hhash
-      unfold fguardN
-      simp only at hgl hhash
-      rw [hgl, hhash]; rfl
+    have hgf : fguard f.text = true := by
+      unfold guardL at hgl; rw [hlang] at hgl; exact hgl
     rw [parseSrcL_f f hlang] at hparse
     obtain ⟨hnodes, hpos⟩ := fortran_groups_are_reference f.text p hgf hparse
     refine ⟨?_, fun nd hnd => (hpos nd hnd).2⟩
@@ -121,15 +80,15 @@ theorem nodes_are_spec_groups (f : SrcFile) (p : Parsed) (hparse : parseSrcL f =
   | unsupported => unfold guardL at hgl; rw [hlang] at hgl; cases hgl
 
 /-- **line_attribution_is_reference_mixed.**  For distinct file names and a configuration whose units the reference accepts: for
-    EVERY file — C-family or free-form Fortran — whose text is inside the full guard of its language (C05's; C17's without
-    F-C17-2), the per-line attribution of the record (`SM.lineAttr`, the list `setmap_lines` / `specCount` count over) is
+    EVERY file — C-family or free-form Fortran — whose text is inside the guard of its language (C05's; C17's),
+    the per-line attribution of the record (`SM.lineAttr`, the list `setmap_lines` / `specCount` count over) is
     EXACTLY the attribution written from the specifications alone (`specLineAttrL`): every line the language's specification
     counts, once, with the platforms whose ISO C reference run keeps the specification's group it belongs to; and every node
     of such a file counts at least one line. -/
 theorem line_attribution_is_reference_mixed (files : List SrcFile) (plats : List Plat) (fs : List FileRec)
     (h : analyseL files plats = .ok fs) (hnd : (files.map (·.path)).Nodup) (hacc : RefAcceptsAllL files plats) :
     List.Forall₂ (fun (f : SrcFile) (r : FileRec) => ∃ p, parseSrcL f = .ok p ∧
-        (guardN f = true → lineAttr r = specLineAttrL plats f p.pnodes ∧ ∀ n ∈ r.nodes, 1 ≤ n.numLines)) files fs := by
+        (guardL f = true → lineAttr r = specLineAttrL plats f p.pnodes ∧ ∀ n ∈ r.nodes, 1 ≤ n.numLines)) files fs := by
   obtain ⟨ps, pr, hpr, hp⟩ := analyseG_pairs parseSrcL files plats fs h
   refine hp.imp ?_
   rintro f r ⟨p, hm, hparse, rfl⟩
@@ -156,12 +115,19 @@ theorem line_attribution_is_reference_mixed (files : List SrcFile) (plats : List
     obtain ⟨nd, hnd', he⟩ := List.mem_map.mp hmem
     rw [← he]; exact hpos nd hnd'
 
-/-- **setmap_rows_are_reference_counts_mixed.**  … and when every text of a mixed code base is inside the full guard of its
+/-- **lineAttributionIsReferenceMixed.**  The full statement kept visible in `Props/C06Fortran.lean`, as stated there. -/
+theorem lineAttributionIsReferenceMixed : LineAttributionIsReferenceMixed := by
+  intro files plats fs h hnd hacc
+  refine (line_attribution_is_reference_mixed files plats fs h hnd hacc).imp ?_
+  rintro f r ⟨p, hp, hattr⟩
+  exact ⟨p, hp, fun hg => (hattr hg).1⟩
+
+/-- **setmap_rows_are_reference_counts_mixed.**  … and when every text of a mixed code base is inside the guard of its
     language, the row of platform set `k` in `get_setmap` is the number of (file, counted line) pairs — counted by C05's
     specification in the C-family files, by C17's in the Fortran files — whose reference attribution is exactly `k`. -/
 theorem setmap_rows_are_reference_counts_mixed (files : List SrcFile) (plats : List Plat) (fs : List FileRec)
     (h : analyseL files plats = .ok fs) (hnd : (files.map (·.path)).Nodup) (hacc : RefAcceptsAllL files plats)
-    (hg : ∀ f ∈ files, guardN f = true) (k : Key) :
+    (hg : ∀ f ∈ files, guardL f = true) (k : Key) :
     ∃ ps, List.Forall₂ (fun (f : SrcFile) (p : Parsed) => parseSrcL f = .ok p) files ps ∧
       get (getSetmap fs) k =
         ((files.zip ps).map fun x => (specLineAttrL plats x.1 x.2.pnodes).countP fun y => y.2 = k).sum := by
@@ -190,10 +156,10 @@ theorem setmap_rows_are_reference_counts_mixed (files : List SrcFile) (plats : L
 
 /-- the code base `exSrcL` / `exPlatsL` of `Props/C06Fortran.lean` (a C file and a Fortran file with a statement continued over
     a comment line inside `#ifdef A`, a sentinel in the `#else` branch; two platforms, four compile commands) satisfies the
-    hypotheses of the three theorems: both files are inside the FULL guard; and the attribution is not trivial (the Fortran
+    hypotheses of the three theorems: both files are inside the guard of their language; and the attribution is not trivial (the Fortran
     file has six groups carrying three different platform sets) -/
 example :
-    (exSrcL.all guardN) = true ∧ (exSrcL.map (·.path)).Nodup ∧ refAcceptsAllLb exSrcL exPlatsL = true ∧
+    (exSrcL.all guardL) = true ∧ (exSrcL.map (·.path)).Nodup ∧ refAcceptsAllLb exSrcL exPlatsL = true ∧
     (exSrcL.map fun f => (specNodesL f).map (·.2)) =
       [[[1], [2], [3], [4], [5, 6], [7]], [[1], [2], [3, 5], [6], [7], [8], [10]]] ∧
     ((analyseL exSrcL exPlatsL).toOption.map fun fs => fs.map fun r => (r.nodes.map (·.plats))) =
@@ -201,9 +167,11 @@ example :
             [["cpu", "gpu"], ["cpu", "gpu"], ["cpu"], ["cpu", "gpu"], ["gpu"], ["cpu", "gpu"], ["cpu", "gpu"]]] := by
   decide +kernel
 
-/-- the guard matters and is narrow: the witness of F-C17-2 is inside C17's guard but outside the full one -/
+/-- the former witness of F-C17-2 is inside C17's guard and, since the repair, grouped as the specification groups it -/
 example :
-    fguard CbiVerif.C17.witnessF2.toList = true ∧ fguardN CbiVerif.C17.witnessF2.toList = false ∧
-    fguardN "x = &\n&#define A\ny = 2\n".toList = true := by decide
+    fguard CbiVerif.C17.witnessF2.toList = true ∧
+    (fParseSrc CbiVerif.C17.witnessF2.toList).toOption.map
+        (fun p => p.nodes.map fun nd => (nd.kind == CClean.NKind.directive, nd.lines))
+      = some (Fortran.refNodes CbiVerif.C17.witnessF2) := by decide
 
 end CbiVerif.C06
